@@ -124,6 +124,20 @@ class Randomizer(RandIF):
             for uf in ri.unconstrained():
                 print("Unconstrained: " + uf.fullname)
                
+        # Constraints that reference no field are part of no randset.
+        # There is nothing to solve for, but they must still hold
+        if len(ri.floating_constraint_l) > 0:
+            btor = Boolector()
+            btor.Set_opt(_BTOR_OPT_INCREMENTAL, True)
+            for c in ri.floating_constraint_l:
+                n = c.build(btor, False)
+                if n is not None:
+                    btor.Assert(n)
+            if btor.Sat() != btor.SAT:
+                raise SolveFailure(
+                    "solve failure",
+                    "Solve failure: a constraint that references no field does not hold")
+
         # Assign values to the unconstrained fields first
         uc_rand = list(filter(lambda f:f.is_used_rand, ri.unconstrained()))
         for uf in uc_rand:
